@@ -46,6 +46,21 @@
 //
 // Whether a refused copy leaves the destination as it was is recorded in the
 // evidence, not judged: the statement does not speak of it.
+//
+// The hasher. It is an ARGUMENT WITH STATE, and calls follow each other: what
+// the hasher holds when the call is entered is a start state like any other.
+// So the state of the hasher on entry is enumerated - fresh; written to by the
+// caller; left behind by an earlier CopyFileHash/HashFile on the SAME hasher
+// that succeeded; left behind by one that failed at consultation k, for every
+// k of that call's fault-free trace (a failure after at least one chunk leaves
+// bytes in it that no successful return ever cleared) - and the scenario is
+// then a history of two calls with at most one fault in it. Oracle unchanged:
+//
+//	(g) whenever the later call returns nil, its digest is the digest of the
+//	    source bytes computed independently with a fresh hasher (and (c)); the
+//	    digest the earlier call returned with a nil error is still the digest
+//	    of ITS bytes after the later call has run (a returned slice must not
+//	    live in state the next call reuses).
 package main
 
 import (
@@ -367,7 +382,41 @@ type scenario struct {
 	DstState   string `json:"dst_state"`          // kind of the destination path: absent | present | dir | symlink | ... | n/a
 	SrcMode    uint32 `json:"src_mode"`
 
+	// Before is a call made earlier with the same hasher (and the same FailFS
+	// wrappers, buffer pool, file systems); nil: the hasher is entered as
+	// HasherUsed says.
+	Before *prelude `json:"earlier_call_on_same_hasher,omitempty"`
+
 	noFaults bool // fault-free runs only (not part of a replay: a replay names its plan)
+}
+
+// prelude is the earlier call of a two-call history: CopyFileHash or HashFile
+// of another file (pre.bin, other content) with the scenario's hasher, under
+// its own plan (K indexes the consultations of THAT call).
+type prelude struct {
+	Func string `json:"func"` // CopyFileHash | HashFile
+	Size int    `json:"size"`
+	Plan plan   `json:"plan"`
+
+	expect []cons // fault-free trace of the earlier call the plan indexes into (nil: not verified)
+}
+
+// preSalt makes the content of the earlier call's file differ from the source's.
+const preSalt = 0x3C
+
+// entry names the state of the hasher on entry, for signatures and statistics;
+// empty for a fresh hasher (the scenarios the driver always had).
+func (s scenario) entry() string {
+	switch {
+	case s.Before != nil && s.Before.Plan.K >= 0:
+		return "after-faulted-" + s.Before.Func
+	case s.Before != nil:
+		return "after-" + s.Before.Func
+	case s.HasherUsed:
+		return "written-by-caller"
+	}
+
+	return ""
 }
 
 func (s scenario) srcKind() string {
@@ -424,6 +473,10 @@ func (s scenario) String() string {
 	u := ""
 	if s.HasherUsed {
 		u = "+used"
+	}
+
+	if b := s.Before; b != nil {
+		u = fmt.Sprintf("+hasher after %s(size=%d, fault k=%d %s:%s %s)", b.Func, b.Size, b.Plan.K, b.Plan.Side, b.Plan.Primitive, b.Plan.Err)
 	}
 
 	return fmt.Sprintf("%s%s %s size=%d src=%s dst=%s srcmode=%#o", s.variant(), u, s.pair(), s.Size, s.srcKind(), s.DstState, s.SrcMode)
@@ -498,8 +551,28 @@ type result struct {
 	SrcLen     int      `json:"src_len"`
 	SrcChanged bool     `json:"src_changed,omitempty"`
 
+	HasherDirty bool       `json:"hasher_holds_bytes_on_entry,omitempty"` // Sum on entry differs from the sum of nothing
+	Pre         *preResult `json:"earlier_call,omitempty"`
+
 	trace []cons
 }
+
+// preResult is what the earlier call of a two-call history did.
+type preResult struct {
+	Outcome      string   `json:"outcome"` // returned | PANIC | DEADLOCK
+	Msg          string   `json:"msg,omitempty"`
+	ErrNil       bool     `json:"error_is_nil"`
+	Err          string   `json:"error,omitempty"`
+	Fired        bool     `json:"fault_fired"`
+	Trace        []string `json:"trace"`
+	Digest       string   `json:"digest,omitempty"`
+	DigestOKThen bool     `json:"digest_ok_when_returned"`
+	DigestOKNow  bool     `json:"digest_ok_after_the_later_call"` // the returned slice itself, looked at again
+
+	trace []cons
+}
+
+var emptyDigest = sha512.Sum512(nil)
 
 var errSentinel = errors.New("c16: injected sentinel failure")
 
@@ -548,12 +621,21 @@ func run(sc scenario, pl plan) (res result, herr error) {
 
 	dstKit := srcKit
 
-	if !isHash && !sc.Shared {
-		dstKit, err = newKit(sc.DstFS)
-		if err != nil {
-			return res, harnessError{err.Error()}
-		}
+	// an earlier CopyFileHash before a HashFile needs somewhere to copy to
+	preCopies := sc.Before != nil && sc.Before.Func == "CopyFileHash"
 
+	switch {
+	case !isHash && !sc.Shared:
+		dstKit, err = newKit(sc.DstFS)
+	case isHash && preCopies:
+		dstKit, err = newKit(fsMem)
+	}
+
+	if err != nil {
+		return res, harnessError{err.Error()}
+	}
+
+	if dstKit != srcKit {
 		defer dstKit.cleanup()
 	}
 
@@ -579,10 +661,29 @@ func run(sc scenario, pl plan) (res result, herr error) {
 		}
 	}
 
-	var trace []cons
+	var (
+		trace    []cons
+		preTrace []cons
+		inPre    bool
+		preFired bool
+	)
 
 	mk := func(side string) failfs.FailFunc {
 		return func(_ avfs.VFSBase, fn avfs.FnVFS, fp *failfs.FailParam) error {
+			if inPre {
+				// the earlier call has its own consultation index and plan
+				idx := len(preTrace)
+				preTrace = append(preTrace, cons{side, fn})
+
+				if idx == sc.Before.Plan.K {
+					preFired = true
+
+					return injected(sc.Before.Plan.Err, fp)
+				}
+
+				return nil
+			}
+
 			idx := len(trace)
 			trace = append(trace, cons{side, fn})
 
@@ -601,7 +702,7 @@ func run(sc scenario, pl plan) (res result, herr error) {
 
 	var dstFail *failfs.FailFS
 
-	if !isHash {
+	if !isHash || preCopies {
 		dstFail = failfs.New(dstKit.top)
 		_ = dstFail.SetFailFunc(mk("dst"))
 	}
@@ -617,6 +718,68 @@ func run(sc scenario, pl plan) (res result, herr error) {
 
 	srcPath := srcKit.top.Join(srcKit.dir, "src.bin")
 	dstPath := dstKit.top.Join(dstKit.dir, "dst.bin")
+
+	// The earlier call of a two-call history: another file, the same hasher,
+	// the same wrappers. Its digest is kept AS RETURNED (no copy) and looked at
+	// again after the later call.
+	var (
+		preSum  []byte
+		preData []byte
+	)
+
+	if b := sc.Before; b != nil {
+		if hasher == nil || (b.Func != "CopyFileHash" && b.Func != "HashFile") {
+			return res, harnessError{fmt.Sprintf("%s: an earlier call needs a hasher and one of the hashing functions", sc)}
+		}
+
+		preData = pattern(b.Size, preSalt)
+
+		if err = srcKit.putFile("pre.bin", preData, 0o644); err != nil {
+			return res, harnessError{fmt.Sprintf("setup of the earlier call's source on %s: %v", sc.SrcFS, err)}
+		}
+
+		prePath := srcKit.top.Join(srcKit.dir, "pre.bin")
+		preOut := dstKit.top.Join(dstKit.dir, "pre.out")
+
+		var perr error
+
+		inPre = true
+
+		pkind, pmsg := fsx.Guard(func() {
+			if b.Func == "HashFile" {
+				preSum, perr = avfs.HashFile(srcFail, prePath, hasher)
+			} else {
+				preSum, perr = avfs.CopyFileHash(dstFail, srcFail, preOut, prePath, hasher)
+			}
+		})
+
+		inPre = false
+
+		pre := &preResult{Outcome: "returned", ErrNil: perr == nil, Fired: preFired, Trace: traceStrings(preTrace), trace: preTrace}
+		if pkind != "" {
+			pre.Outcome, pre.Msg = pkind, pmsg
+		}
+
+		if perr != nil {
+			pre.Err = perr.Error()
+		}
+
+		if preSum != nil {
+			want := sha512.Sum512(preData)
+			pre.Digest = hex.EncodeToString(preSum)
+			pre.DigestOKThen = bytes.Equal(preSum, want[:])
+		}
+
+		res.Pre = pre
+
+		if b.Plan.K >= 0 && (!preFired || (b.expect != nil && (len(preTrace) <= b.Plan.K || !sameTrace(preTrace[:b.Plan.K+1], b.expect[:b.Plan.K+1])))) {
+			return res, harnessError{fmt.Sprintf("%s: the earlier call diverged from its fault-free trace (fired=%v, trace %v)", sc, preFired, pre.Trace)}
+		}
+	}
+
+	if hasher != nil {
+		res.HasherDirty = !bytes.Equal(hasher.Sum(nil), emptyDigest[:])
+	}
 
 	var (
 		sum  []byte
@@ -726,6 +889,11 @@ func run(sc scenario, pl plan) (res result, herr error) {
 		res.DigestOK = len(sum) == 0
 	}
 
+	if res.Pre != nil && preSum != nil {
+		want := sha512.Sum512(preData)
+		res.Pre.DigestOKNow = bytes.Equal(preSum, want[:])
+	}
+
 	return res, nil
 }
 
@@ -787,7 +955,7 @@ func newBook() *book {
 }
 
 func chkKey(sc scenario, side, prim string) string {
-	return sc.Func + "|" + sc.Hasher + "|" + side + "|" + prim + "|" + sc.shape()
+	return sc.Func + "|" + sc.Hasher + "|" + side + "|" + prim + "|" + sc.shape() + "|" + sc.entry()
 }
 
 func (b *book) noteChecked(sc scenario, side, prim string) {
@@ -812,6 +980,11 @@ func (b *book) add(sc scenario, side, prim, kind string, extra map[string]string
 		if sc.Func != "HashFile" {
 			sig["dst_kind"] = sc.DstState
 		}
+	}
+
+	// likewise the state of the hasher on entry, when it is not a fresh one
+	if e := sc.entry(); e != "" {
+		sig["hasher_entry"] = e
 	}
 
 	gk := sig.String()
@@ -921,28 +1094,61 @@ func (b *book) flush(rep *kf.Reporter) (groups []map[string]any) {
 // the driver's oracle: plants the two paths on the innermost file systems,
 // makes the call through FailFS and judges error, destination and digest.
 func goTest(sc scenario, pl plan, required bool) string {
-	h := "nil"
+	h := "var hasher hash.Hash // nil"
 	if sc.Hasher == "sha512" {
-		h = "sha512.New()"
+		h = "var hasher hash.Hash = sha512.New()"
 		if sc.HasherUsed {
-			h = "func() hash.Hash { h := sha512.New(); h.Write([]byte(\"stale\")); return h }()"
+			h += "\n\t_, _ = hasher.Write([]byte(\"stale\")) // the caller used it before"
 		}
+	}
+
+	// the earlier call of a two-call history: same hasher, same wrappers, its own failing consultation
+	preCopies := false
+
+	if b := sc.Before; b != nil {
+		preCopies = b.Func == "CopyFileHash"
+
+		pcall := "avfs.HashFile(src, srcTop.Join(srcDir, \"pre.bin\"), hasher)"
+		if preCopies {
+			pcall = "avfs.CopyFileHash(dst, src, dstTop.Join(dstDir, \"pre.out\"), srcTop.Join(srcDir, \"pre.bin\"), hasher)"
+		}
+
+		h += fmt.Sprintf(`
+	// the earlier call with the same hasher: %s of another file of %d bytes, failing consultation %d (%s:%s #%d; -1 = none)
+	preData := pattern(%d, %#x)
+	put(t, srcRaw, srcRaw.Join(srcRawDir, "pre.bin"), preData, 0o644)
+	n = %d // counts up to 0, where the earlier call's consultation fails
+	prePermDenied = %v
+	preSum, preErr := %s
+	t.Logf("earlier call: error %%v", preErr)
+	n = 0
+	defer func() {
+		if d := sha512.Sum512(preData); preErr == nil && !bytes.Equal(preSum, d[:]) {
+			t.Errorf("the digest the earlier call returned with a nil error is not (or no longer) the digest of its bytes: %%x", preSum)
+		}
+	}()`, b.Func, b.Size, b.Plan.K, b.Plan.Side, b.Plan.Primitive, b.Plan.Nth, b.Size, preSalt, map[bool]int{true: -1 - b.Plan.K, false: -1 << 30}[b.Plan.K >= 0], b.Plan.Err == "permdenied", pcall)
 	}
 
 	var call string
 
 	switch sc.Func {
 	case "CopyFile":
-		call = "var sum []byte\n\terr := avfs.CopyFile(dst, src, dstPath, srcPath)"
+		call = "var sum []byte\n\t_ = hasher\n\terr := avfs.CopyFile(dst, src, dstPath, srcPath)"
 	case "CopyFileHash":
-		call = "sum, err := avfs.CopyFileHash(dst, src, dstPath, srcPath, " + h + ")"
+		call = "sum, err := avfs.CopyFileHash(dst, src, dstPath, srcPath, hasher)"
 	default:
-		call = "sum, err := avfs.HashFile(src, srcPath, " + h + ")"
+		call = "sum, err := avfs.HashFile(src, srcPath, hasher)"
 	}
 
-	dstFS := sc.DstFS
+	call = h + "\n\t" + call
+
+	dstFS, shared := sc.DstFS, sc.Shared || sc.Func == "HashFile"
 	if sc.Func == "HashFile" {
 		dstFS = sc.SrcFS
+
+		if preCopies { // the earlier CopyFileHash copies to a fresh MemFS
+			dstFS, shared = fsMem, false
+		}
 	}
 
 	failing := "none (fault-free run)"
@@ -972,6 +1178,8 @@ import (
 )
 
 var _ hash.Hash = sha512.New()
+
+var prePermDenied bool // the error injected into the earlier call of a two-call history is a PathError wrapping avfs.ErrPermDenied
 
 // mkfs returns the file system FailFS wraps, the innermost writable one, and the working directory in both name spaces.
 func mkfs(t *testing.T, kind string) (top, raw avfs.VFS, dir, rawDir string) {
@@ -1080,6 +1288,12 @@ func TestC16Replay(t *testing.T) {
 	n := 0
 	ff := func(_ avfs.VFSBase, _ avfs.FnVFS, fp *failfs.FailParam) error {
 		n++
+		if n == 0 {
+			if prePermDenied {
+				return &fs.PathError{Op: fp.Op, Path: fp.Path, Err: avfs.ErrPermDenied}
+			}
+			return errors.New("injected (earlier call)")
+		}
 		if n-1 == k {
 			if permDenied {
 				return &fs.PathError{Op: fp.Op, Path: fp.Path, Err: avfs.ErrPermDenied}
@@ -1128,7 +1342,7 @@ func TestC16Replay(t *testing.T) {
 		t.Fatalf("nil error but the digest is %%x", sum)
 	}
 }
-`, sc.Size, sc.SrcMode, sc.srcKind(), sc.DstState, sc.Func != "HashFile", sc.Shared || sc.Func == "HashFile", sc.possible(),
+`, sc.Size, sc.SrcMode, sc.srcKind(), sc.DstState, sc.Func != "HashFile", shared, sc.possible(),
 		pl.K, failing, required, pl.Err == "permdenied", sc.Hasher == "sha512", sc.SrcFS, dstFS, call)
 }
 
@@ -1175,7 +1389,9 @@ type stats struct {
 	shapeOutcome                         map[string]map[string]int // shape -> outcome of the fault-free run -> scenarios
 	refusedDstChanged                    map[string]int            // shape -> refused copies after which the destination side differs
 	shapeScenarios                       int
-	wallPlain, wallShapes                float64
+	wallPlain, wallShapes, wallSequel    float64
+	sequelHeads, sequelRuns              int
+	entryStates                          map[string]map[string]int // state of the hasher on entry -> what it was in fact -> runs
 }
 
 func inc2(m map[string]map[string]int, a, b string) {
@@ -1211,6 +1427,26 @@ func checkConverse(bk *book, sc scenario, pl plan, base []cons, res result) {
 
 	rp := func(exp string) func() any {
 		return func() any { return replayObj(sc, pl, base, res, exp) }
+	}
+
+	// (g) the earlier call of a two-call history: it returns, and a digest it
+	// returned with a nil error is the digest of its bytes - still so after
+	// the later call.
+	if p := res.Pre; p != nil {
+		switch {
+		case p.Outcome != "returned":
+			m := p.Msg
+			if i := strings.Index(m, " @ "); i >= 0 {
+				m = m[:i]
+			}
+
+			bk.add(sc, side, prim, "earlier-call-"+p.Outcome, map[string]string{"msg": m}, rp("the earlier call returns"))
+		case p.ErrNil && !p.DigestOKThen:
+			bk.add(sc, side, prim, "earlier-call-nil-error-but-digest-wrong", nil, rp("nil error only if the returned digest is the digest of the bytes"))
+		case p.ErrNil && !p.DigestOKNow:
+			bk.add(sc, side, prim, "earlier-digest-changed-by-later-call", nil,
+				rp("the digest returned by the earlier call is still the digest of its bytes after the later call on the same hasher"))
+		}
 	}
 
 	if res.Outcome != "returned" {
@@ -1260,7 +1496,7 @@ func checkConverse(bk *book, sc scenario, pl plan, base []cons, res result) {
 // explore runs one scenario: fault-free twice (determinism), then every
 // single-fault plan. It returns a harness error for anything that would make
 // the enumeration meaningless.
-func explore(sc scenario, bk *book, st *stats) error {
+func explore(sc scenario, bk *book, st *stats) (result, error) {
 	st.scenarios++
 
 	if sc.Func == "HashFile" {
@@ -1273,7 +1509,7 @@ func explore(sc scenario, bk *book, st *stats) error {
 
 	base, err := run(sc, nofault)
 	if err != nil {
-		return fmt.Errorf("%s: %w", sc, err)
+		return base, fmt.Errorf("%s: %w", sc, err)
 	}
 
 	st.runs++
@@ -1284,20 +1520,22 @@ func explore(sc scenario, bk *book, st *stats) error {
 	if !sc.noFaults {
 		again, err := run(sc, nofault)
 		if err != nil {
-			return fmt.Errorf("%s: %w", sc, err)
+			return base, fmt.Errorf("%s: %w", sc, err)
 		}
 
 		st.runs++
 		st.baseRuns++
 
 		if !sameTrace(base.trace, again.trace) || base.ErrNil != again.ErrNil || base.Digest != again.Digest {
-			return fmt.Errorf("%s: fault-free run is not deterministic: %v / %v", sc, base.Trace, again.Trace)
+			return base, fmt.Errorf("%s: fault-free run is not deterministic: %v / %v", sc, base.Trace, again.Trace)
 		}
 	}
 
 	if base.SrcChanged {
 		st.srcChanged++
 	}
+
+	st.noteEntry(sc, base)
 
 	inc2(st.baseTraces, sc.variant(), compress(base.trace))
 	st.traceLens[len(base.trace)]++
@@ -1346,7 +1584,7 @@ func explore(sc scenario, bk *book, st *stats) error {
 	}
 
 	if sc.noFaults {
-		return nil
+		return base, nil
 	}
 
 	sampled := sc.plain() && sc.Size == 32769 && !st.sampledVariant[sc.variant()]
@@ -1367,20 +1605,22 @@ func explore(sc scenario, bk *book, st *stats) error {
 
 			res, err := run(sc, pl)
 			if err != nil {
-				return fmt.Errorf("%s plan %+v: %w", sc, pl, err)
+				return base, fmt.Errorf("%s plan %+v: %w", sc, pl, err)
 			}
 
 			st.runs++
 			st.faultRuns++
 
 			if !res.Fired || len(res.trace) <= k || !sameTrace(res.trace[:k+1], base.trace[:k+1]) {
-				return fmt.Errorf("%s plan %+v: replay diverged from the fault-free trace (fired=%v, trace %v, expected prefix %v)",
+				return base, fmt.Errorf("%s plan %+v: replay diverged from the fault-free trace (fired=%v, trace %v, expected prefix %v)",
 					sc, pl, res.Fired, res.Trace, traceStrings(base.trace[:k+1]))
 			}
 
 			if res.SrcChanged {
 				st.srcChanged++
 			}
+
+			st.noteEntry(sc, res)
 
 			st.injected[c.String()]++
 			st.classInjected[class]++
@@ -1420,7 +1660,111 @@ func explore(sc scenario, bk *book, st *stats) error {
 		}
 	}
 
+	return base, nil
+}
+
+// exploreSequel runs the two-call histories that start with one earlier call:
+// the head scenario (earlier call fault-free; the later call under the plans
+// its tier gives it) and then, for every consultation k of the earlier call's
+// fault-free trace and every error E, the history "the earlier call fails at
+// k with E, the later call runs fault-free on the hasher that leaves behind".
+// At most one fault per history, as everywhere in this driver.
+//
+// General lesson: an argument with state (a hasher, a buffer, a handle) is a
+// start state; the states worth enumerating are the ones the code under test
+// itself leaves behind - above all on its error paths, which no successful
+// return ever tidied up.
+func exploreSequel(head scenario, bk *book, st *stats) error {
+	if head.Before == nil || head.Before.Plan.K >= 0 {
+		return fmt.Errorf("%s: not the head of a two-call history", head)
+	}
+
+	base, err := explore(head, bk, st)
+	if err != nil {
+		return err
+	}
+
+	if base.Pre == nil {
+		return fmt.Errorf("%s: the earlier call was not made", head)
+	}
+
+	st.sequelHeads++
+
+	pre := base.Pre.trace
+	nofault := plan{K: -1}
+	nth := map[cons]int{}
+
+	for k, c := range pre {
+		nth[c]++
+
+		for _, e := range errKinds {
+			sc := head
+			sc.noFaults = true
+			sc.Before = &prelude{
+				Func: head.Before.Func, Size: head.Before.Size, expect: pre,
+				Plan: plan{K: k, Side: c.Side, Primitive: c.Fn.String(), Nth: nth[c], Err: e},
+			}
+
+			res, err := run(sc, nofault)
+			if err != nil {
+				return fmt.Errorf("%s: %w", sc, err)
+			}
+
+			st.runs++
+			st.sequelRuns++
+
+			if res.SrcChanged {
+				st.srcChanged++
+			}
+
+			st.noteEntry(sc, res)
+			bk.noteChecked(sc, "-", "none")
+
+			// the later call can succeed and nothing fails during it
+			if res.Outcome == "returned" && !res.ErrNil && sc.possible() {
+				bk.add(sc, "-", "none", "error-without-fault", map[string]string{"err": res.ErrKind},
+					func() any {
+						return replayObj(sc, nofault, res.trace, res, "nil error: nothing failed during this call")
+					})
+			}
+
+			checkConverse(bk, sc, nofault, res.trace, res)
+
+			if e == "sentinel" && res.HasherDirty && !res.Pre.ErrNil && !st.sampledVariant["sequel "+sc.variant()+" "+sc.entry()] {
+				st.sampledVariant["sequel "+sc.variant()+" "+sc.entry()] = true
+				st.samples = append(st.samples, map[string]any{
+					"scenario": sc.String(), "earlier_call_trace": compress(res.Pre.trace), "earlier_call_error": res.Pre.Err,
+					"hasher_holds_bytes_on_entry": res.HasherDirty, "plan": "no fault", "trace": compress(res.trace),
+					"observed_error": map[bool]string{true: "nil", false: res.Err}[res.ErrNil], "digest_ok": res.DigestOK,
+				})
+			}
+		}
+	}
+
 	return nil
+}
+
+// noteEntry counts the states in which the hasher was actually entered.
+func (st *stats) noteEntry(sc scenario, res result) {
+	e := sc.entry()
+	if e == "" {
+		return
+	}
+
+	how := "hasher clean"
+	if res.HasherDirty {
+		how = "hasher holds bytes"
+	}
+
+	if res.Pre != nil {
+		if res.Pre.ErrNil {
+			how = "earlier call returned nil, " + how
+		} else {
+			how = "earlier call returned an error, " + how
+		}
+	}
+
+	inc2(st.entryStates, e, how)
 }
 
 // ---------------------------------------------------------------------------
@@ -1431,6 +1775,9 @@ type fsPair struct {
 	shared   bool
 }
 
+// used lists the entry states "fresh" (false) and "written to by the caller"
+// (true) of the hasher; usedFaults says whether the second one also gets the
+// single-fault plans (quick: fault-free only - the fresh hasher runs them all).
 func space(tier string) (sizes []int, pairs []fsPair, hashFS []string, used []bool) {
 	hashFS = []string{fsMem, fsOrefa, fsOs, fsBase, fsRo}
 
@@ -1446,7 +1793,7 @@ func space(tier string) (sizes []int, pairs []fsPair, hashFS []string, used []bo
 		pairs = append(pairs, fsPair{fsBase, fsMem, false}, fsPair{fsMem, fsBase, false},
 			fsPair{fsOrefa, fsRo, false}, fsPair{fsMem, fsMem, true})
 
-		return sizes, pairs, hashFS, []bool{false}
+		return sizes, pairs, hashFS, []bool{false, true}
 	}
 
 	sizes = []int{0, 1, 32767, 32768, 32769, 65536, 65537}
@@ -1478,7 +1825,10 @@ func scenarios(tier string) []scenario {
 						scenario{Func: "CopyFileHash", Hasher: "nil", DstFS: p.dst, SrcFS: p.src, Shared: p.shared, Size: size, DstState: ds, SrcMode: mode})
 
 					for _, u := range used {
-						out = append(out, scenario{Func: "CopyFileHash", Hasher: "sha512", HasherUsed: u, DstFS: p.dst, SrcFS: p.src, Shared: p.shared, Size: size, DstState: ds, SrcMode: mode})
+						out = append(out, scenario{
+							Func: "CopyFileHash", Hasher: "sha512", HasherUsed: u, DstFS: p.dst, SrcFS: p.src, Shared: p.shared, Size: size, DstState: ds, SrcMode: mode,
+							noFaults: u && !usedFaults(tier),
+						})
 					}
 				}
 			}
@@ -1489,7 +1839,10 @@ func scenarios(tier string) []scenario {
 		for _, size := range sizes {
 			for _, mode := range []uint32{0o644, 0o400} {
 				for _, u := range used {
-					out = append(out, scenario{Func: "HashFile", Hasher: "sha512", HasherUsed: u, DstFS: "-", SrcFS: f, Size: size, DstState: "n/a", SrcMode: mode})
+					out = append(out, scenario{
+						Func: "HashFile", Hasher: "sha512", HasherUsed: u, DstFS: "-", SrcFS: f, Size: size, DstState: "n/a", SrcMode: mode,
+						noFaults: u && !usedFaults(tier),
+					})
 				}
 			}
 		}
@@ -1557,7 +1910,62 @@ func scenarios(tier string) []scenario {
 
 	skippedUnsupported = skipped
 
+	// two-call histories on one hasher, last (the newest dimension); each entry
+	// is the HEAD of a family: exploreSequel derives from it one history per
+	// (consultation of the earlier call, error)
+	sq := sequels(tier)
+
+	for _, first := range []string{"CopyFileHash", "HashFile"} {
+		for _, fsz := range sq.firstSizes {
+			for _, size := range sq.sizes {
+				before := func() *prelude { return &prelude{Func: first, Size: fsz, Plan: plan{K: -1}} }
+
+				for _, p := range pairs {
+					out = append(out, scenario{
+						Func: "CopyFileHash", Hasher: "sha512", DstFS: p.dst, SrcFS: p.src, Shared: p.shared, Size: size,
+						DstState: kDstAbsent, SrcMode: 0o644, Before: before(), noFaults: !sq.laterFaults,
+					})
+				}
+
+				for _, f := range hashFS {
+					out = append(out, scenario{
+						Func: "HashFile", Hasher: "sha512", DstFS: "-", SrcFS: f, Size: size,
+						DstState: "n/a", SrcMode: 0o644, Before: before(), noFaults: !sq.laterFaults,
+					})
+				}
+			}
+		}
+	}
+
 	return out
+}
+
+func usedFaults(tier string) bool { return tier != "quick" }
+
+// sequelSpace is the part of the space that makes two calls with one hasher.
+type sequelSpace struct {
+	firstSizes  []int // size of the file of the earlier call
+	sizes       []int // size of the source of the later call
+	laterFaults bool  // single-fault plans in the later call too (after a fault-free earlier call)?
+	text        string
+}
+
+func sequels(tier string) sequelSpace {
+	common := "earlier call in {CopyFileHash, HashFile} of another file with the same sha512 hasher, fault-free and failing at every consultation k of its own fault-free trace with each error; " +
+		"later call in {CopyFileHash (every fs pair, destination absent), HashFile (every hashfile fs; an earlier CopyFileHash then copies to a fresh MemFS)}; "
+
+	if tier == "quick" {
+		return sequelSpace{
+			firstSizes: []int{65537}, sizes: []int{0, 32769},
+			text: common + "earlier file of 65537 bytes (3 buffer loads), later source of 0 and 32769 bytes; the later call runs fault-free",
+		}
+	}
+
+	return sequelSpace{
+		firstSizes: []int{32769, 65537}, sizes: []int{0, 1, 32769, 65537}, laterFaults: true,
+		text: common + "earlier file of 32769 and 65537 bytes, later source of 0, 1, 32769, 65537 bytes; the later call runs fault-free after a faulted earlier call and under every single-fault plan after a fault-free one " +
+			"(at most one fault per history)",
+	}
 }
 
 // shapeSpace is the part of the space that varies what the two paths are.
@@ -1745,6 +2153,7 @@ func main() {
 		baseTraces: map[string]map[string]int{}, traceLens: map[int]int{}, pairs: map[string]int{},
 		sampledVariant: map[string]bool{}, hashFS: map[string]int{},
 		shapeOutcome: map[string]map[string]int{}, refusedDstChanged: map[string]int{},
+		entryStates: map[string]map[string]int{},
 	}
 	bk := newBook()
 	all := scenarios(*tier)
@@ -1767,13 +2176,24 @@ func main() {
 
 		t0 := time.Now()
 
-		if err := explore(sc, bk, st); err != nil {
+		var err error
+
+		if sc.Before != nil {
+			err = exploreSequel(sc, bk, st)
+		} else {
+			_, err = explore(sc, bk, st)
+		}
+
+		if err != nil {
 			die("%v", err)
 		}
 
-		if sc.plain() {
+		switch {
+		case sc.Before != nil:
+			st.wallSequel += time.Since(t0).Seconds()
+		case sc.plain():
 			st.wallPlain += time.Since(t0).Seconds()
-		} else {
+		default:
 			st.wallShapes += time.Since(t0).Seconds()
 			st.shapeScenarios++
 		}
@@ -1789,6 +2209,22 @@ func main() {
 					cl, st.classSeen[cl], st.classInjected[cl])
 			}
 		}
+	}
+
+	// The new dimension: the caller's own bytes must have been in the hasher
+	// (that is the harness's doing); whether an earlier call of the library
+	// leaves bytes behind is the library's business - reached or not, it is
+	// recorded in the evidence, so that "after a failed call" is not silently the
+	// fresh hasher under another name.
+	if exhaustive && st.entryStates["written-by-caller"]["hasher holds bytes"] == 0 {
+		die("the hasher is never entered holding bytes of the caller: %v", st.entryStates)
+	}
+
+	leftBehind := map[string]bool{}
+
+	for _, f := range []string{"CopyFileHash", "HashFile"} {
+		leftBehind["failed "+f] = st.entryStates["after-faulted-"+f]["earlier call returned an error, hasher holds bytes"] > 0
+		leftBehind["successful "+f] = st.entryStates["after-"+f]["earlier call returned nil, hasher holds bytes"] > 0
 	}
 
 	groups := bk.flush(rep)
@@ -1826,6 +2262,12 @@ func main() {
 
 	sizes, _, _, _ := space(*tier)
 	sh := shapes(*tier)
+	sq := sequels(*tier)
+	usedText := "fault-free and every single-fault plan"
+
+	if !usedFaults(*tier) {
+		usedText = "fault-free only"
+	}
 
 	if len(st.samples) == 0 {
 		st.samples = append(st.samples, "no scenario executed (budget)")
@@ -1834,31 +2276,37 @@ func main() {
 	cov := map[string]any{
 		"evaluations":         st.runs,
 		"distinct_nontrivial": len(st.faultClasses),
-		"rule": "evaluations = executions of the real CopyFile/CopyFileHash/HashFile on fresh instances (2 fault-free runs per scenario - 1 for a scenario that is run fault-free only - + one run per " +
-			"(consultation index k of the fault-free trace, error E in {sentinel, PathError{ErrPermDenied}})); distinct_nontrivial = number of distinct " +
+		"rule": "evaluations = executions of a scenario (the real CopyFile/CopyFileHash/HashFile, preceded in a two-call history by the earlier call) on fresh instances (2 fault-free runs per scenario - 1 for a scenario that is run fault-free only - + one run per " +
+			"(consultation index k of the fault-free trace, error E in {sentinel, PathError{ErrPermDenied}}) + for the head of a two-call history one run per (consultation index k of the earlier call, E)); distinct_nontrivial = number of distinct " +
 			"(function variant, side, FnVFS primitive, E) fault classes whose injected consultation was actually reached and returned E in the run " +
 			"(verified against the run's own trace)",
-		"samples":                                  st.samples,
-		"scenarios":                                st.scenarios,
-		"scenarios_planned":                        len(all),
-		"fault_free_runs":                          st.baseRuns,
-		"single_fault_runs":                        st.faultRuns,
-		"sizes":                                    sizes,
-		"fs_pairs(dst<-src)":                       pairNames,
-		"hashfile_fs":                              st.hashFS,
-		"errors_injected":                          errKinds,
-		"fault_free_traces":                        st.baseTraces,
-		"fault_free_trace_lengths":                 lensToMap(st.traceLens),
-		"plans_injected_per_primitive":             st.injected,
-		"plans_injected_per_class":                 st.classInjected,
-		"listed_classes":                           listed,
-		"outcomes_per_variant_and_prim":            st.outcome,
-		"unlisted_primitives_recorded_not_flagged": st.unlisted,
-		"source_changed_runs":                      st.srcChanged,
-		"violation_groups":                         groups,
-		"exhaustive":                               exhaustive,
+		"samples":                       st.samples,
+		"scenarios":                     st.scenarios,
+		"scenarios_planned":             len(all),
+		"fault_free_runs":               st.baseRuns,
+		"single_fault_runs":             st.faultRuns,
+		"two_call_history_heads":        st.sequelHeads,
+		"two_call_faulted_earlier_runs": st.sequelRuns,
+		"two_call_histories":            sq.text,
+		"hasher_entered_holding_bytes_of_an_earlier": leftBehind,
+		"hasher_entry_states":                        st.entryStates,
+		"sizes":                                      sizes,
+		"fs_pairs(dst<-src)":                         pairNames,
+		"hashfile_fs":                                st.hashFS,
+		"errors_injected":                            errKinds,
+		"fault_free_traces":                          st.baseTraces,
+		"fault_free_trace_lengths":                   lensToMap(st.traceLens),
+		"plans_injected_per_primitive":               st.injected,
+		"plans_injected_per_class":                   st.classInjected,
+		"listed_classes":                             listed,
+		"outcomes_per_variant_and_prim":              st.outcome,
+		"unlisted_primitives_recorded_not_flagged":   st.unlisted,
+		"source_changed_runs":                        st.srcChanged,
+		"violation_groups":                           groups,
+		"exhaustive":                                 exhaustive,
 		"bound": "single fault per run; every k of every fault-free trace; " + *tier + " space. Shapes: every (kind of source path, kind of destination path) of the listed kinds x shape sizes x every fs pair x every function variant; on them: " +
-			sh.faultsText,
+			sh.faultsText + ". Hasher on entry: fresh (everything above); written to by the caller (every plain scenario of the sha512 variants, " + usedText +
+			"); left behind by an earlier call on the same hasher: " + sq.text,
 		"shape_source_kinds":                        sh.srcKinds,
 		"shape_destination_kinds":                   sh.dstKinds,
 		"shape_sizes":                               sh.sizes,
@@ -1876,7 +2324,9 @@ func main() {
 	werr := ev.Write(filepath.Join(verifDir, "evidence", *id+".json"), ev.Evidence{
 		PropertyID: *id, Tier: *tier, Seed: ev.Seed(), Level: "fault_enumeration", Coverage: cov,
 		Assumptions: []string{
-			"single fault per run (no multi-fault plans)",
+			"single fault per run (no multi-fault plans); a two-call history on one hasher holds at most one fault, in the earlier or in the later call",
+			"the hasher is sha512 (or nil); its state on entry is one of: fresh, 5 bytes written by the caller (" + usedText + "), what an earlier CopyFileHash/HashFile of another file left in it (" + sq.text +
+				"); no third call, no hasher shared by overlapping calls",
 			"FailFS is the fault-injection seam: a failure is a non-nil return of the FailFunc before the base primitive runs; partial writes/short reads of a base file system are not modelled",
 			"source sizes " + fmt.Sprint(sizes) + " with one deterministic non-periodic content; destination absent or present (longer, mode 0660); source mode 0644/0400; administrator user; umask 022",
 			"shapes: source path of kinds " + fmt.Sprint(sh.srcKinds) + " x destination path of kinds " + fmt.Sprint(sh.dstKinds) + " x sizes " + fmt.Sprint(sh.sizes) +
@@ -1901,6 +2351,8 @@ func main() {
 		*tier, done, len(all), st.runs, st.baseRuns, st.faultRuns, len(st.faultClasses), len(st.pairs), len(st.hashFS), len(groups), rep.NewCount(), exhaustive, ev.Elapsed())
 	fmt.Printf("c16: shapes (kind of source path x kind of destination path): scenarios=%d distinct shapes=%d skipped as unsupported by the file system=%d wall plain=%.1fs shapes=%.1fs\n",
 		st.shapeScenarios, len(st.shapeOutcome), skippedUnsupported, st.wallPlain, st.wallShapes)
+	fmt.Printf("c16: hasher on entry: two-call histories on one hasher: heads=%d + histories with a faulted earlier call=%d; entry states=%v wall=%.1fs\n",
+		st.sequelHeads, st.sequelRuns, st.entryStates, st.wallSequel)
 
 	_ = os.RemoveAll(scratchRoot)
 
